@@ -83,6 +83,18 @@ class Report:
             if s not in self.assumptions:
                 self.assumptions.append(s)
 
+    def absorb(self, other):
+        for o in other.obligations:
+            self.obligations.append(o)
+        for f in other.findings:
+            self.finding(f.rule, f.construct, f.key, f.message, f.line, f.witness)
+        for x in other.samples:
+            self.sample(x)
+        for k, v in other.stats.items():
+            self.stats[k] = self.stats.get(k, 0) + v if isinstance(v, (int, float)) and not isinstance(v, bool) else v
+        self.assume(*other.assumptions)
+        self.floors.extend(other.floors)
+
     def merge_stats(self, **kw):
         for k, v in kw.items():
             self.stats[k] = self.stats.get(k, 0) + v if isinstance(v, (int, float)) else v
